@@ -95,7 +95,7 @@ func TestProbeHostile(t *testing.T) {
 		}
 		probs, _ := checkWellFormed(po, f)
 		for _, p := range probs {
-			if excused(rec, f, po, p) {
+			if excused(rec, src, f, po, p) {
 				seen["excused"]++
 				continue
 			}
